@@ -231,7 +231,7 @@ func genPos(t *rapid.T, label string, n int) int {
 // of the two keys differs from the RP's.
 func genForeign(t *rapid.T, label string, hashA, encA []byte) KeyPair {
 	n := len(hashA)
-	hrel := pick(t, label+"hrel", "same", "indep", "flip", "flip", "tail", "extend", "extend", "cut")
+	hrel := pick(t, label+"hrel", "same", "indep", "flip", "flip", "tail", "extend", "extend", "cut", "cut")
 	if n == 1 && (hrel == "cut" || hrel == "tail") {
 		hrel = "flip"
 	}
@@ -258,7 +258,17 @@ func genForeign(t *rapid.T, label string, hashA, encA []byte) KeyPair {
 		}
 		hrel = fmt.Sprintf("extend+%d", k)
 	case "cut":
+		// the other deployment uses the first m bytes only: the natural key sizes, one byte less than the RP, or anything
 		m := 1 + genPos(t, label+"hpos", n-1)
+		var sizes []int
+		for _, sz := range []int{16, 32, 64} {
+			if sz < n {
+				sizes = append(sizes, sz)
+			}
+		}
+		if len(sizes) > 0 && rapid.Bool().Draw(t, label+"hcut-size") {
+			m = rapid.SampledFrom(sizes).Draw(t, label+"hcut")
+		}
 		hash = hash[:m]
 		hrel = fmt.Sprintf("cut@%d", m)
 	}
@@ -1665,11 +1675,14 @@ func describeCookie(have, ok bool, dec, why string) string {
 
 var prop = vkit.Prop[Case]{
 	ID: "C17",
-	Rule: "cases = RP (rp.NewRelyingPartyOIDC, cookie handler keys A with/without encryption, PKCE on/off, JWT-profile client authentication on/off, client registered as basic/post/none/private_key_jwt, " +
+	Rule: "cases = RP (rp.NewRelyingPartyOIDC, cookie handler keys A = generated hash key of 1-128 bytes (classes 1-15/16/17-31/32/33-63/64/65/66-128) and no / AES-128 / AES-192 / AES-256 encryption key, PKCE on/off, JWT-profile client authentication on/off, client registered as basic/post/none/private_key_jwt, " +
 		"oauth2 auth style auto/params/header, default or application handlers) against an in-process provider (both routers) x browser history of 1-4 (thorough 1-5) logins (rp.AuthURLHandler) in 1-2 cookie jars interleaved with " +
 		"1-4 (thorough 1-6) callbacks (rp.CodeExchangeHandler), each callback = (jar manipulation list, query): matching, earlier attempt, other browser's attempt, restored earlier cookies, state omitted/empty/" +
-		"prefix/suffix/case/other, flipped/truncated/extended cookie, cookie minted under keys B (hash, block or both) or under keys A for another name, swapped state/pkce cookies with the query set to the sealed value, " +
-		"dropped cookies, error= callbacks, GET/POST; excluded from the domain: cookies minted under keys A for the right name by anyone but the RP, empty application state, duplicate state parameters / cookies; " +
+		"prefix/suffix/case/other, flipped/truncated/extended cookie, cookie minted (by a cookie handler of the library built with the other keys, or by the model codec) under the keys of another deployment = 3 generated foreign key pairs per case derived from A " +
+		"(hash key unrelated / equal / one byte or the whole tail differing at a generated position incl. 0,15,16,31,32,63,64,65,last / A continued by 1-16 bytes / A cut short; encryption key equal / unrelated / one byte differing / other AES size sharing the prefix / present on one side only; " +
+		"at least one key differs) or the fixed 32-byte keys B (hash, block or both), state and pkce cookie of the foreign flow together or alone, cookie under keys A for another name, cookies re-issued by a replica handler with byte-equal keys (must be accepted), " +
+		"swapped state/pkce cookies with the query set to the sealed value, dropped cookies, error= callbacks, GET/POST; one history in ten starts no flow at all (the jar holds only what others minted); " +
+		"excluded from the domain: cookies minted under keys A for the right name by anyone but the RP or its replica, handlers whose keys the library cannot use (empty hash key, AES key not 16/24/32 bytes), empty application state, duplicate state parameters / cookies; " +
 		"non-trivial = the history contains a callback that must be refused, or one that must succeed although it is not the browser's latest attempt, or several attempts in one jar; " +
 		"distinct = (configuration, sequence of (model class, manipulations, state/code query kinds))",
 	Gen: genCase,
